@@ -336,7 +336,7 @@ func c19Menu(w *wworld.World) []string {
 	return ops
 }
 
-func c19Specs(quick bool) []*wSpec {
+func c19OwnSpecs(quick bool) []*wSpec {
 	two := wworld.Config{FeeA: 100, Wallets: []wworld.WalletCfg{{Default: "a"}, {Default: "a"}}}
 	if quick {
 		return []*wSpec{
@@ -855,4 +855,8 @@ func init() {
 		},
 	})
 	_ = bfs.Job{}
+}
+
+func c19Specs(quick bool) []*wSpec {
+	return append(c19OwnSpecs(quick), wUnionSpec("C19", quick, nil, c19Probe(false), true))
 }
